@@ -28,34 +28,50 @@ func ruleC04_7(c *Ctx) {
 	}
 	initializing, _ := p.ConstInt(pkgCore, "Initializing")
 	initialized, _ := p.ConstInt(pkgCore, "Initialized")
-	// (a) OnSOpened: returns with a non-nil handshake are dominated by SetInitializeStatus(Initializing); the others by Initialized
-	var sets []*ssa.Call
-	allInstrs(so, func(in ssa.Instruction) {
-		if call, ok := in.(*ssa.Call); ok && call.Call.IsInvoke() && call.Call.Method.Name() == "SetInitializeStatus" {
-			sets = append(sets, call)
-		}
-	})
-	n := 0
-	allInstrs(so, func(in ssa.Instruction) {
-		r, ok := in.(*ssa.Return)
-		if !ok {
-			return
-		}
-		n++
-		want := initialized
-		label := "no handshake ⇒ Initialized"
-		if !isNilConst(results(r)[0]) {
-			want, label = initializing, "handshake sent ⇒ Initializing"
-		}
-		okS := false
-		for _, s := range sets {
-			if k, isK := constInt(s.Call.Args[0]); isK && k == want && dominatesInstr(s, r) && strip(s.Call.Value) == ssa.Value(so.Params[1]) {
-				okS = true
+	// (a) OnSOpened, path by path: the last SetInitializeStatus before the return says Initializing exactly when the
+	//     returned handshake is not nil (the values may be computed first and passed on: phis are resolved along the path)
+	isRet := func(b *ssa.BasicBlock) bool { _, ok := b.Instrs[len(b.Instrs)-1].(*ssa.Return); return ok }
+	paths, complete := feasiblePaths(so.Blocks[0], isRet, 2000)
+	if isRet(so.Blocks[0]) {
+		paths = append(paths, []*ssa.BasicBlock{so.Blocks[0]})
+	}
+	c.examined(len(paths))
+	nSent, nNone, badSent, badNone := 0, 0, "", ""
+	for _, pa := range paths {
+		r := pa[len(pa)-1].Instrs[len(pa[len(pa)-1].Instrs)-1].(*ssa.Return)
+		out := valueOnPath(results(r)[0], pa)
+		var last *ssa.Call
+		for _, b := range pa {
+			for _, in := range b.Instrs {
+				if call, ok := in.(*ssa.Call); ok && call.Call.IsInvoke() && call.Call.Method.Name() == "SetInitializeStatus" && strip(call.Call.Value) == ssa.Value(so.Params[1]) {
+					last = call
+				}
 			}
 		}
-		c.check(okS, fmt.Sprintf("OnSOpened: return #%d: %s", n, label), c.at(r), "SetInitializeStatus dominates the return",
-			"a backend connection that sends AUTH/READONLY is not put in the Initializing state (or one that sends nothing is): the handshake's +OK is matched to the first client request on that connection, and every later reply is shifted by one")
-	})
+		status := int64(-1)
+		if last != nil {
+			if k, isK := constInt(valueOnPath(last.Call.Args[0], pa)); isK {
+				status = k
+			}
+		}
+		if isNilConst(out) {
+			nNone++
+			if status != initialized {
+				badNone = c.at(r)
+			}
+		} else {
+			nSent++
+			if status != initializing {
+				badSent = c.at(r)
+			}
+		}
+	}
+	if !complete {
+		c.undecided("OnSOpened: paths", p.pos(so.Pos()), "too many paths")
+	}
+	msgA := "a backend connection that sends AUTH/READONLY is not put in the Initializing state (or one that sends nothing is): the handshake's +OK is matched to the first client request on that connection, and every later reply is shifted by one"
+	c.check(nSent > 0 && badSent == "", "OnSOpened: handshake sent ⇒ Initializing", p.pos(so.Pos()), fmt.Sprintf("%d paths return a handshake, each after SetInitializeStatus(Initializing)", nSent), msgA+" (return at "+badSent+")")
+	c.check(nNone > 0 && badNone == "", "OnSOpened: no handshake ⇒ Initialized", p.pos(so.Pos()), fmt.Sprintf("%d paths return nothing, each after SetInitializeStatus(Initialized)", nNone), msgA+" (return at "+badNone+")")
 	// (b) conn.sread: InitializingDecode under status == Initializing, before Decode, its error returned
 	ic := p.callsIn(sread, idec)
 	dc := p.callsIn(sread, sdec)
